@@ -13,6 +13,8 @@ def native_check(kind, N, B, negB, k, epochs=2, seed=0, use_sched=True, reinit=F
     st = C.make_state(kind, 2, 2, 1)
     if reinit:
         st.reinitialize_parameters()        # history: the state was re-initialised before training
+        for net in st.networks:
+            getattr(st, net).eval()         # ... and torch's nn.Module.eval() was called on its networks (an evaluation callback does)
     C.randomize(st, rng, 0.5)
     if kind == "mixed":
         st.rbm_ph.aux_bias.data.zero_()
@@ -33,6 +35,8 @@ def native_check(kind, N, B, negB, k, epochs=2, seed=0, use_sched=True, reinit=F
         torch.set_rng_state(state)
         pos = st.positive_phase_gradients(batch[0], *( [batch[2]] if len(batch) > 2 else []))
         vk = st.rbm_am.gibbs_steps(kk, batch[1])
+        if not bool(((vk == 0) | (vk == 1)).all()):
+            fails.append("the negative-phase chains after k steps are not configurations (entries other than 0 / 1)")
         want0 = pos[0] - st.rbm_am.effective_energy_gradient(vk) / float(batch[1].shape[0])
         if not torch.allclose(g[0], want0, rtol=1e-10, atol=1e-12):
             fails.append("amplitude gradient != positive - G(vk)/|neg|")
